@@ -451,6 +451,9 @@ func runC04() {
 	}
 	nShapes = scaled(nShapes)
 	kinds := []string{"split", "EpochNotMatch", "NotLeader", "ServerIsBusy", "StaleCommand"}
+	// the resolver's side of the rules (rule 4: commit only when no secondary reported `rolled back / missing`): the directed
+	// async-commit recovery family (profile full), both arrival orders of the per-region CheckSecondaryLocks answers
+	asyncRecoveryFamily(rnd.Fork(), 4)
 	for n := 0; n < nShapes; n++ {
 		r := rnd.Fork()
 		s := genShape(r)
